@@ -61,6 +61,7 @@ class Sched:
         self.lock = None
         self.line_mode = line_mode
         self.trace_log = None
+        self.arrival = []          # writer tids in order of their first lock acquisition inside writer()
 
     # ---- called by worker threads
     def me(self):
@@ -183,6 +184,8 @@ class ShimLock:
                 s.gate("line", lambda: self.owner is None, "Lock.__enter__", 0)
             assert self.owner is None
             self.owner = w.tid
+            if section_name() == "writer" and w.tid not in s.arrival:
+                s.arrival.append(w.tid)
             return self
         w.section = section_name()
         w.created = None
@@ -269,7 +272,9 @@ def writer_fn(z, prog):
 
     def fn(w):
         w.todo = len(edits)
+        w.phase = "waiting"
         txn = z.writer(bool(repl))
+        w.phase = "body"
         w.txn = txn
         for i, e in enumerate(edits):
             SCHED.gate("edit", len(edits) - i)
@@ -284,10 +289,12 @@ def writer_fn(z, prog):
                     txn.delete(dns.name.empty, "TXT")
                 else:
                     txn.delete(pC11.key_name(k))
+        w.phase = "ending"
         if commit:
             txn.commit()
         else:
             txn.rollback()
+        w.phase = "ended"
 
     return fn
 
@@ -344,7 +351,7 @@ class Run:
         self.reader_handle = {}
         self.nreaders = 0
         self.admission = []       # tids in admission order
-        self.arrival = []         # writer tids in order of their first critical section in writer()
+        self.arrival = self.sched.arrival   # writer tids in order of their first critical section in writer()
         self.end_order = []       # writer tids in the order their write txn ended
         self.history = []
 
